@@ -238,6 +238,70 @@ fn check_program(name: &str, m: &Module, budgets: &[u64], out: &mut ChunkResult)
     vs
 }
 
+/// Two runs on one VM: whatever the first run did with its budget (used little of it, used it up,
+/// failed), the second run is bounded by its own budget and unaffected when that is sufficient.
+fn sequence_cases() -> Vec<(String, Module, u64, bool, String, Module, u64)> {
+    let m1 = |main: Vec<C>| module(vec![("main", func(&[], main))]);
+    let firsts: Vec<(&str, Module, u64)> = vec![
+        ("short-run-big-budget", m1(vec![sg("a", int(1))]), 100_000),
+        ("short-run-default-budget", m1(vec![sg("a", int(1))]), 1000),
+        ("timed-out-run", m1(vec![sv("x", int(0)), C::While(b(int(1)), b(sv("x", add(rv("x"), int(1)))))]), 50),
+        ("failed-run", m1(vec![sg("a", int(1)), sink(C::GetProperty(b(int(1)), b(int(2))))]), 5000),
+        ("run-with-callbacks", {
+            let mut main = table3();
+            main.push(sg("res", call("std.sorted_by_key", vec![C::Function("kf".into()), rv("t")])));
+            let mut fns = vec![("main".to_string(), func(&[], main))];
+            fns.push(keyfn("kf", 3, vec![]));
+            Module { submodules: vec![], functions: fns, imports: vec![] }
+        }, 20_000),
+    ];
+    let seconds: Vec<(&str, Module, u64)> = vec![
+        ("endless-60", m1(vec![sv("x", int(0)), C::While(b(int(1)), b(sv("x", add(rv("x"), int(1)))))]), 60),
+        ("endless-7", m1(vec![sv("x", int(0)), C::While(b(int(1)), b(sv("x", add(rv("x"), int(1)))))]), 7),
+        ("finite-fits", m1(vec![sv("x", int(0)), C::Repeat { n: b(int(20)), i: None, body: b(sv("x", add(rv("x"), int(1)))) }, sg("done", rv("x"))]), 1000),
+    ];
+    let mut v = Vec::new();
+    for (n1, p1, b1) in firsts.iter() {
+        for clear in [false, true] {
+            for (n2, p2, b2) in seconds.iter() {
+                v.push((n1.to_string(), p1.clone(), *b1, clear, n2.to_string(), p2.clone(), *b2));
+            }
+        }
+    }
+    v
+}
+
+fn run_sequence(c: &(String, Module, u64, bool, String, Module, u64)) -> Option<(String, String)> {
+    let (n1, p1, b1, clear, n2, p2, b2) = c;
+    let natives = refsem::default_natives();
+    let (_, Some(prog1)) = realrun::compile_real(p1) else { return Some(("sequence:compile".into(), n1.clone())) };
+    let (_, Some(prog2)) = realrun::compile_real(p2) else { return Some(("sequence:compile".into(), n2.clone())) };
+    // what the second program does on a VM of its own
+    let alone = realrun::run_program(p2, &prog2, &natives, &RunCfg { max_instr: *b2, ..Default::default() });
+    cao_lang::verif::reset();
+    let mut vm = realrun::new_vm(p1, &natives, &RunCfg { max_instr: *b1, ..Default::default() });
+    let _ = vm.run(&prog1);
+    if *clear {
+        vm.clear();
+    }
+    vm.max_instr = *b2;
+    cao_lang::verif::reset_instr_count();
+    let r = vm.run(&prog2);
+    let executed = cao_lang::verif::instr_count();
+    let result = match &r {
+        Ok(()) => "Ok".to_string(),
+        Err(e) => realrun::payload_kind(&e.payload),
+    };
+    cao_lang::verif::reset();
+    if executed > *b2 {
+        return Some((format!("sequence:over-budget:{n2}"), format!("{n2} with budget {b2}, run after {n1} (budget {b1}{}) on the same VM, executed {executed} instructions (result {result})", if *clear { ", cleared in between" } else { "" })));
+    }
+    if result != alone.result {
+        return Some((format!("sequence:result-differs:{n2}"), format!("{n2} with budget {b2} ends with {} on a VM of its own and with {result} after {n1} (budget {b1}{}) on the same VM", alone.result, if *clear { ", cleared in between" } else { "" })));
+    }
+    None
+}
+
 fn budgets(tier: Tier) -> Vec<u64> {
     (1..=tier.pick(300u64, 2000)).collect()
 }
@@ -248,7 +312,7 @@ impl Check for C03 {
     }
     fn info(&self, tier: Tier) -> CheckInfo {
         CheckInfo {
-            rule: format!("{} programs (endless while / recursion, huge and small Repeat, std.sorted_by_key / min_by_key / max_by_key with key functions that spin 0/10/100 times or forever, native->script->native nesting to depth 2 and 3, sorted/min/max, map/filter with spinning callbacks, host functions re-entering the script incl. recursion through the host to depth 4, a host function that swallows the callback's error inside finite and endless outer loops, closures in loops) x every budget N in 1..={} plus N = needed-2..needed+3 and 2*needed+10: the hook's dispatch counter (all nesting levels of _run) <= N; if the unbounded run needs K instructions then N > K => result, globals and host log identical to the unbounded run, N < K => Timeout (possibly wrapped in the TaskFailure of the native the callback ran under); programs that never finish => Timeout for every N; wall-clock per run bounded. 'states' = programs for which every budget held", programs().len(), tier.pick(300, 2000)),
+            rule: format!("{} programs (endless while / recursion, huge and small Repeat, std.sorted_by_key / min_by_key / max_by_key with key functions that spin 0/10/100 times or forever, native->script->native nesting to depth 2 and 3, sorted/min/max, map/filter with spinning callbacks, host functions re-entering the script incl. recursion through the host to depth 4, a host function that swallows the callback's error inside finite and endless outer loops, closures in loops) x every budget N in 1..={} plus N = needed-2..needed+3 and 2*needed+10: the hook's dispatch counter (all nesting levels of _run) <= N; if the unbounded run needs K instructions then N > K => result, globals and host log identical to the unbounded run, N < K => Timeout (possibly wrapped in the TaskFailure of the native the callback ran under); programs that never finish => Timeout for every N; wall-clock per run bounded; plus two runs on one VM (first run: short with a big / default budget, timed out, failed, with callbacks; with and without clear in between; second run: endless loop with budget 60 / 7, a finite program that fits): the second run stays within its own budget and ends like on a VM of its own. 'states' = programs for which every budget held", programs().len(), tier.pick(300, 2000)),
             bound: format!("{} programs x ~{} budgets", programs().len(), tier.pick(307, 2007)),
             exhaustive: true,
             assumptions: vec!["a Timeout raised inside a callback under a native surfaces as TaskFailure(native: Timeout); that counts as reporting Timeout".into(), "the implementation stops one instruction early (budget N executes at most N-1); that satisfies 'at most N'".into()],
@@ -256,19 +320,36 @@ impl Check for C03 {
         }
     }
     fn units(&self, _tier: Tier) -> u64 {
-        programs().len() as u64
+        programs().len() as u64 + 1
     }
     fn unit_timeout_s(&self, tier: Tier) -> u64 {
         tier.pick(40, 300)
     }
     fn run_unit(&self, tier: Tier, unit: u64, out: &mut ChunkResult) {
         let progs = programs();
+        if unit as usize == progs.len() {
+            for (i, c) in sequence_cases().iter().enumerate() {
+                out.evaluations += 1;
+                out.traces += 1;
+                match run_sequence(c) {
+                    None => out.nontrivial += 1,
+                    Some((k, w)) => out.violation(Violation::new("C03", k, w, json!({"sequence": i}))),
+                }
+            }
+            out.states += 1;
+            out.outcome("two runs on one VM".to_string());
+            return;
+        }
         let (name, m) = &progs[unit as usize];
         for v in check_program(name, m, &budgets(tier), out) {
             out.violation(v);
         }
     }
     fn replay(&self, case: &J) -> Option<Violation> {
+        if let Some(i) = case["sequence"].as_u64() {
+            let cases = sequence_cases();
+            return run_sequence(cases.get(i as usize)?).map(|(k, w)| Violation::new("C03", k, w, case.clone()));
+        }
         let name = case["program"].as_str()?;
         let n = case["budget"].as_u64()?;
         let progs = programs();
